@@ -3,15 +3,15 @@ FMT = "Diagnostic text is outside the claim (core::fmt::write stubbed) unless th
 MODEL = "Option/resource maps are the fixed-capacity array model of /verif/engine/verif_alloc (differentially tested against std in setup; off in replay) unless the harness says it runs on std's containers. "
 
 claim("C01",
-      "The encoder is cut along its loop and every piece is decided symbolically against the RFC 7252 section 3.1 reference image: header/token (all first bytes, codes, ids, token 0..8), payload marker rule, one option with every number x value length 0..300, two options with every pair n1<n2, repeated numbers, clear/re-add, public add_option in both orders; three options in the thorough tier. The decode direction is C03; together they give decode(encode(m)) = m inside both bounds.",
+      "The encoder is cut along its loop and every piece is decided symbolically against the RFC 7252 section 3.1 reference image: header/token (all first bytes, codes, ids, token 0..8), payload marker rule for all types, one option with every number (values of 1 and 13 bytes) and with every value length 0..300 (number 258), two options with every pair n1<n2, a repeated number, clear/re-add, public add_option with the higher number first; more lengths / numbers / orders and three options in the thorough tier. The decode direction is C03; together they give decode(encode(m)) = m inside both bounds.",
       MODEL + FMT + "More than 3 distinct option numbers, value contents beyond one symbolic byte pattern, and the ordering done by std's BTreeMap are outside.",
       "Kani/CBMC bounded model checking of to_bytes_internal against an RFC-derived reference encoder", "DESIGN.md section 3 C01")
 claim("C02",
-      "Composition (D) C03 field equality of every accepted datagram with the reference parse + (E) C01 exact image of every structured message, plus direct parse->serialise queries on concrete layouts with all free bits symbolic (two options with extended delta, payload; lone trailing marker; payload of a 0.00 message).",
+      "Composition (D) C03 framing equality of every accepted datagram up to 7 bytes with the reference parse and content equality on single-option layouts + (E) C01 exact image of every structured message, plus direct parse->serialise queries on concrete layouts with all free bits symbolic (one option with extended delta and payload; lone trailing marker; payload of a 0.00 message; all four types).",
       MODEL + FMT + "The direct query over every byte string does not fit (out of memory at 6 bytes); the general claim rests on the composition and on the uniqueness of the RFC 7252 delta/length encoding.",
       "Kani/CBMC bounded model checking; composition of C03 and C01 plus direct re-encode on concrete layouts", "DESIGN.md section 3 C02")
 claim("C03",
-      "Every byte string of length 0..8 is decided against a three-valued RFC 7252 reference parser: no panic/overflow/out-of-bounds read (Kani's implicit checks), must-reject => Err, must-accept => Ok; framing equality (numbers, lengths, counts, payload range) for every string up to 7 bytes; byte-for-byte content equality on concrete layouts reaching one- and two-byte extended deltas and a one-byte extended length. 11 bytes in the thorough tier.",
+      "Every byte string of length 0..8 is decided against a three-valued RFC 7252 reference parser: no panic/overflow/out-of-bounds read (Kani's implicit checks), must-reject => Err, must-accept => Ok; framing equality (numbers, lengths, counts, payload range) for every string up to 7 bytes; byte-for-byte content equality on concrete single-option layouts reaching one- and two-byte extended deltas and a one-byte extended length. 11 bytes (verdict) and 8 bytes (framing) in the thorough tier.",
       MODEL + FMT + "Datagrams longer than the bound are outside; that 8 bytes exercise the loop body from every loop state is an argument, not a query.",
       "Kani/CBMC bounded model checking of Packet::from_bytes against a three-valued reference parser", "DESIGN.md section 3 C03")
 claim("C04",
@@ -27,20 +27,20 @@ claim("C06",
       MODEL + FMT + "Strings longer than 3 bytes are outside.",
       "Kani/CBMC bounded model checking, full-width symbolic integers", "DESIGN.md section 3 C06")
 claim("C07",
-      "CoapResponse::new / from_packet decided for every first header byte x code x message id x token length 0..8 with symbolic bytes; apply_from_error for every error code shape, message up to 3 bytes, with and without an existing content format.",
+      "CoapResponse::new / from_packet decided for every first header byte x code x message id x token length 0..8 with symbolic bytes; apply_from_error for every error code shape and message up to 3 bytes on a response without a content format (that the content-format setter replaces an existing value is decided under C19).",
       MODEL + FMT,
       "Kani/CBMC bounded model checking over the full header domain", "DESIGN.md section 3 C07")
 claim("C08",
-      "Decomposed: (a) one serve step from an arbitrary cached response x arbitrary block request (body 0..40 at block size 16; 0..80 at 32 thorough): payload slice, more flag, Block2 echo, option echo, request id/token; (b) cache release exactly after the final block and the recorded-preference lemma; (c) first response of a transfer through the public intercept_response with the cache lookup modelled. The reassembly statement is the sum of the steps over num = 0,1,2,... (argument, not a query).",
-      MODEL + FMT + "Bodies above 80 bytes, block sizes above 32, the real LruCache (key mapping, expiry) are outside.",
+      "Decomposed: (a) one serve step from an arbitrary cached response x arbitrary block request (body 0..40 at block size 16; 0..80 at 32 thorough): payload slice, more flag, Block2 echo, option echo, request id/token; (b) cache release exactly after the final block, requests without Block2 / without a cached response, and the recorded-preference lemma; (c) block number, offset and more flag of the negotiated block. The reassembly statement is the sum of the steps over num = 0,1,2,... (argument, not a query). The ten lines of wiring inside intercept_response are NOT decided (CBMC does not finish on the public entry point, even for one concrete scenario).",
+      MODEL + FMT + "Bodies above 80 bytes, block sizes above 32, the public entry points and the real LruCache (key mapping, expiry) are outside.",
       "Kani/CBMC bounded model checking, inductive step from an arbitrary cached state", "DESIGN.md section 3 C08")
 claim("C10",
       "negotiate_block_size_if_necessary decided for all overheads, payloads, budgets in the property's band and client blocks (none / any num, szx 0..7): power of two 16..1024, <= client size, fits the budget, client size kept with 32 bytes to spare, unfragmented => fits; a bridge harness ties the measured overhead to real encoded messages (marker + block options within the 12-byte allowance); the 4.13 hint path of a request without Block1.",
       MODEL + FMT + "More than 2 pre-existing options in the bridge harness are outside.",
       "Kani/CBMC bounded model checking of the integer kernel at full range plus encoded-length bridge", "DESIGN.md section 3 C10")
 claim("C11",
-      "Partial: the negotiation kernel for every budget (all usize) / overhead / payload / client block never panics and errors carry a 4.xx/5.xx code; the overhead measurement returns for option bloat 0..1400 bytes (below, at, above 1280); intercept_request with the cache lookup modelled returns Ok/Err for any message type, malformed Block2 bytes, budgets 0..5000, and the error renders through apply_from_error.",
-      MODEL + FMT + "Every clause that runs through Vec::splice (requests carrying Block1, the 16 KiB growth bound, rejected-block-leaves-buffer-unchanged) is NOT decided: CBMC cannot execute Vec::splice (out of memory even on a concrete shape).",
+      "Partial: the negotiation kernel for every budget (all usize) / overhead / payload / client block never panics and errors carry a 4.xx/5.xx code; the overhead measurement returns for option bloat 0..1400 bytes (below, at, above 1280); an unservable block is an error with a code (serve step).",
+      MODEL + FMT + "Every clause that runs through Vec::splice (requests carrying Block1, the 16 KiB growth bound, rejected-block-leaves-buffer-unchanged) is NOT decided: CBMC cannot execute Vec::splice (out of memory even on a concrete shape); the public entry points themselves are not decided either.",
       "Kani/CBMC bounded model checking; no-panic via Kani's implicit checks", "DESIGN.md section 3 C11")
 claim("C12",
       "Partial: the two mechanisms isolation rests on are decided - the cache key (equal iff method and endpoint equal; segmentation and prefixes of enumerated paths distinguished) and the reply identity (every served block carries the id/token of the request being answered, from an arbitrary cached id/token).",
@@ -67,8 +67,8 @@ claim("C18",
       "The document shape is a concrete call sequence; other shapes are outside. Runs on the real core::fmt code.",
       "Kani/CBMC bounded model checking with a symbolic fault position", "DESIGN.md section 3 C18")
 claim("C19",
-      "Method / status accessors for all 256 code bytes; content format for every registered format on top of none / an earlier format / raw bytes; observe flag on raw bytes 0..6; both coap-message trait versions (flattened option view with symbolic numbers, copy through set_from_message, writers); path accessors on enumerated path strings.",
-      MODEL + FMT + "Path strings are enumerated (4 shapes), not symbolic: set_path/get_path on symbolic bytes ran out of memory; from_utf8 is a byte-loop model in the path harnesses.",
+      "Method / status accessors for all 256 code bytes; content format for every registered format on top of none / an earlier format / raw bytes; observe flag on raw bytes 0..6; both coap-message trait versions (flattened option view with symbolic numbers and a cleared option in between, copy through set_from_message, writers); path setter and getters on enumerated path strings, meeting at the raw Uri-Path values.",
+      MODEL + FMT + "Path strings are enumerated (a/b, /a//, /, //a, empty), not symbolic: set_path/get_path on symbolic bytes ran out of memory; memchr and from_utf8 are byte-loop models in the path harnesses; empty segments are only counted.",
       "Kani/CBMC bounded model checking", "DESIGN.md section 3 C19")
 NA["C09"] = "not applicable: every Block1 upload runs through Vec::splice (Drain/Splice drop glue), which CBMC cannot execute - out of memory at 24 GB even on a fully concrete shape; modelling splice would replace exactly the code the property is about. Only the 4.13 sentence (no splice) is decided, under C10."
 NA["C16"] = "not applicable: one query needs writer + both scanners + Unquote on a document of >= 9 bytes with arbitrary Unicode; the link scanner alone exhausts memory at 5 symbolic ASCII bytes, and at what fits no document contains an attribute value."
